@@ -75,6 +75,20 @@ theorem recover_is_snapshot {σ μ : Type} (c : Cfg σ μ) (hc : c.Lawful) (hist
   rw [← applyEvs_ops]
   exact fresh_start c hc _ _ (Inv_recover c _ _ g hg h) (recover_lock _ g)
 
+/-- in particular, once the last invocation of a history has completed (nothing saved since), every crash
+afterwards recovers exactly its final state -/
+theorem completed_invocation_is_durable {σ μ : Type} (c : Cfg σ μ) (hc : c.Lawful) (hist : List (List (Call μ)))
+    (g : Garble) (hg : Detectable g)
+    (hdone : (Ghost.init.run (runHist c FS.empty hist)).since = []) :
+    (initRun c (recover (applyOps FS.empty (evOps (runHist c FS.empty hist))) g)).res =
+      .ok (Ghost.init.run (runHist c FS.empty hist)).base := by
+  have h := recover_is_snapshot c hc hist (runHist c FS.empty hist).length g hg
+  simp only [List.take_length] at h
+  obtain ⟨x, hx, ha⟩ := h
+  rcases ha with ha | ⟨s, hs, _⟩
+  · rw [hx, ha]
+  · rw [hdone] at hs; cases hs
+
 /-- the same after any number of earlier crashes: sessions are complete invocations or invocations cut at
 an arbitrary event and crashed with a detectable garbling (then recovered).  After a history that ends
 in a crash, the next start loads an admissible state. -/
